@@ -13,7 +13,7 @@ import (
 
 func init() {
 	register("C15",
-		"RDC-1: for every Read([]byte)(int,error) method of mailbox (NoiseGrpcConn, NoiseConn, connKit) every returned count is the constant 0, the result of copy(b, ...), or the count of a delegated Read(b) on a receiver-owned buffer - hence n <= len(b) on every path. RDC-2: the source of such a copy is a prefix of a receiver field F, F is advanced by exactly the copy count on every path to the return, F is only refilled when empty and only with a whole received message, and nobody else writes F; a received message otherwise flows whole into a receiver-owned bytes.Buffer. RDC-3: Write methods return 0 with an error, the count of Flush, or len(b) after the whole b was handed to the layer below; chunked writes are contiguous and accumulate the flushed count before testing the error. RDC-4: a Read that serves the caller through bytes.Buffer.Read (which reports io.EOF on an empty buffer) does so only under Len() != 0, so an empty record or empty message of the peer cannot end the stream. TRUNC: every narrowing integer conversion in mailbox is dominated by a bound that makes it exact (no silent truncation of lengths). Not decided: the equality of concatenations as a property of histories (follows from RDC-1/2/3 + C08 + C16 only by an inductive argument the checker does not make).",
+		"RDC-1: for every Read([]byte)(int,error) method of mailbox (NoiseGrpcConn, NoiseConn, connKit) every returned count is the constant 0, the result of copy(b, ...), or the count of a delegated Read(b) on a receiver-owned buffer - hence n <= len(b) on every path. RDC-2: the source of such a copy is a prefix of a receiver field F, F is advanced by exactly the copy count on every path to the return, F is only refilled when empty and only with a whole received message, and nobody else writes F; a received message otherwise flows whole into a receiver-owned bytes.Buffer. RDC-3: Write methods return 0 with an error, the count of Flush, or len(b) after the whole b was handed to the layer below; chunked writes are contiguous and accumulate the flushed count before testing the error; WriteMessage encrypts a new record only when nothing of the previous one is pending (accepted bytes are never overwritten). A payload is taken out of a message struct that is created anew for every receive. RDC-4: a Read that serves the caller through bytes.Buffer.Read (which reports io.EOF on an empty buffer) does so only under Len() != 0, so an empty record or empty message of the peer cannot end the stream. TRUNC: every narrowing integer conversion in mailbox is dominated by a bound that makes it exact (no silent truncation of lengths). Not decided: the equality of concatenations as a property of histories (follows from RDC-1/2/3 + C08 + C16 only by an inductive argument the checker does not make).",
 		[]string{"bytes.Buffer.Read/Write implement the io.Reader/io.Writer contract; copy returns min(len(dst), len(src))"},
 		runC15)
 }
@@ -106,6 +106,18 @@ func runC15(c *Checker) {
 	}
 	c.floor("RDC-3", 6)
 	c.floor("RDC-4", 2)
+	// a new record may only be started when nothing of the previous one is pending: otherwise bytes
+	// that Write already reported as written are overwritten and lost (as C16 FLUSH)
+	if wm := w.Func("(*mailbox.Machine).WriteMessage"); wm != nil {
+		hdr, body := w.Field("mailbox.Machine.nextHeaderSend"), w.Field("mailbox.Machine.nextBodySend")
+		if hdr == nil || body == nil {
+			c.anchorFail("mailbox.Machine.nextHeaderSend/nextBodySend")
+		} else {
+			ruleWriteMessageGuard(c, "RDC-3", wm, hdr, body)
+		}
+	} else {
+		c.anchorFail("(*mailbox.Machine).WriteMessage")
+	}
 	checkNarrowing(c, rg, "TRUNC", targetMbox)
 	c.floor("TRUNC", 3)
 }
@@ -335,8 +347,46 @@ func checkReadMethod(c *Checker, rg *Ranger, fn *ssa.Function) {
 				_, whole = ex.Tuple.(*ssa.Call)
 			}
 			if u, ok := arg.(*ssa.UnOp); ok && u.Op == token.MUL {
-				if _, ok := u.X.(*ssa.FieldAddr); ok {
+				if mfa, ok := u.X.(*ssa.FieldAddr); ok {
 					whole = true // a whole field of the received message (data.Payload)
+					// the message struct the payload is taken from must be a fresh one for every receive: a
+					// decoder that leaves a field untouched (empty payload) would otherwise hand out the
+					// previous message's bytes again
+					msg := unwrapLoadAlloc(mfa.X)
+					var creation ssa.Instruction
+					switch m := msg.(type) {
+					case *ssa.Call:
+						if m.Parent() == fn {
+							creation = m
+						}
+					case *ssa.Alloc:
+						if m.Parent() == fn {
+							creation = m
+						}
+					}
+					fresh := creation != nil
+					if fresh {
+						// every use of the message as a call argument (the receive) is re-reached only through the creation
+						for _, r := range *msg.Referrers() {
+							var user ssa.Instruction
+							switch x := r.(type) {
+							case *ssa.MakeInterface:
+								for _, r2 := range *x.Referrers() {
+									if ci, ok := r2.(ssa.CallInstruction); ok {
+										user = ci
+									}
+								}
+							case ssa.CallInstruction:
+								user = x
+							}
+							if user != nil && user != creation && pathExists(user, user, func(in ssa.Instruction) bool { return in == creation }) {
+								fresh = false
+							}
+						}
+					}
+					c.decide(fresh, "RDC-2", fmt.Sprintf("%s|fresh message per receive|%s", name, f.Name()), instrPos(call),
+						"the message the payload is taken from is created anew before every receive",
+						"the received payload is read out of a message struct that is reused across receives (receiver state or created once outside the loop): a message that leaves the field untouched (empty payload) re-delivers the previous message's bytes")
 				}
 			}
 			c.decide(whole, "RDC-2", key, instrPos(call), "whole received message appended to the receiver-owned buffer: "+desc,
